@@ -315,3 +315,24 @@ func OverlappingEdges(css ...[][]P2) bool {
 	}
 	return false
 }
+
+// SubGridVertices reports whether two DISTINCT vertices of the given contours lie closer together
+// than eps (both coordinates), i.e. within a few cells of the sweep's snap grid of each other without
+// coinciding. A cause predicate decidable from the input; used only to NAME failure classes.
+func SubGridVertices(eps float64, css ...[][]P2) bool {
+	var vs []P2
+	for _, cs := range css {
+		for _, c := range cs {
+			vs = append(vs, c...)
+		}
+	}
+	sort.Slice(vs, func(i, j int) bool { return vs[i].X < vs[j].X })
+	for i := range vs {
+		for j := i + 1; j < len(vs) && vs[j].X-vs[i].X < eps; j++ {
+			if vs[i] != vs[j] && math.Abs(vs[i].Y-vs[j].Y) < eps {
+				return true
+			}
+		}
+	}
+	return false
+}
